@@ -213,6 +213,10 @@ void harness(void) {
         VERIF_ASSUME(IN.form[i] <= 4);                            /* literal length in the tag or in 1..4 bytes (non-minimal forms are legal) */
         VERIF_ASSUME(IN.len[i] <= (IN.kind[i] == 0 ? LITMAX : CPMAX));
     }
+#ifdef LIT0      /* focused shape: first element = literal of exactly LIT0 bytes, second = copy of CPMIN..CPMAX bytes (offsets stay symbolic) */
+    VERIF_ASSUME(IN.kind[0] == 0 && IN.len[0] == LIT0 && IN.form[0] == 0);
+    VERIF_ASSUME(NE < 2 || (IN.kind[1] != 0 && IN.len[1] >= CPMIN));
+#endif
     VERIF_ASSUME(ref_snappy_encode_script(sc, NE, IN.lit, LITTOT, stream, STREAMCAP, &sl, expect, EXPCAP, &el) == REF_OK);
 #else
     ref_lz4_seq_t sc[NE];
@@ -220,6 +224,9 @@ void harness(void) {
         sc[i].lit_len = IN.len[i]; sc[i].match_len = IN.form[i]; sc[i].offset = (uint16_t)(IN.offlo[i] | (IN.offhi[i] << 8));
         VERIF_ASSUME(IN.len[i] <= LITMAX && IN.form[i] <= CPMAX);
     }
+#ifdef LIT0      /* focused shape: first sequence = exactly LIT0 literals + a match of CPMIN..CPMAX bytes (offset symbolic), then the final literals */
+    VERIF_ASSUME(IN.len[0] == LIT0 && IN.form[0] >= CPMIN);
+#endif
     VERIF_ASSUME(ref_lz4_encode_script(sc, NE, IN.lit, LITTOT, stream, STREAMCAP, &sl, expect, EXPCAP, &el) == REF_OK);
 #endif
     VERIF_ASSUME(sl <= STREAMCAP && el <= EXPCAP);
